@@ -164,6 +164,7 @@ fn main() {
                 policy: args[4].clone(),
                 hooks: args[5].parse().unwrap(),
                 fsize: None,
+                fsize_error: false,
                 decisions: None,
             };
             let dir = procsim::RunDir { path: std::env::current_dir().unwrap() };
